@@ -31,8 +31,8 @@ type (
 		Keys []string
 		Vals []Expr
 	}
-	// Func is a function literal. It appears only as the sole right-hand side
-	// of a Local statement.
+	// Func is a function literal. It appears only as the sole or the first right-hand side
+	// of a Local statement (the names declared by that statement are not in scope inside it, unless Rec).
 	Func struct{ F *FuncDef }
 	// Vararg is `...` (only in hand-written templates).
 	Vararg struct{}
@@ -71,6 +71,14 @@ type Pos struct {
 }
 
 func (p *Pos) pos() *Pos { return p }
+
+// Exprs0 is the first right-hand side of a Local statement, or nil.
+func (l *Local) Exprs0() Expr {
+	if len(l.Exprs) == 0 {
+		return nil
+	}
+	return l.Exprs[0]
+}
 
 type (
 	// Local declares locals with pure right-hand sides. Rec renders a single
@@ -148,6 +156,13 @@ type (
 		Pos
 		Exprs []Expr
 	}
+	// FuncStmt is `function Name(...) ... end`: the closure is assigned to the variable Name, which is a local, a
+	// variable of an enclosing function or a global, resolved like any other name.
+	FuncStmt struct {
+		Pos
+		Name string
+		F    *FuncDef
+	}
 	// ReturnCall is a proper tail call `return Fn(Args)`.
 	ReturnCall struct {
 		Pos
@@ -182,4 +197,5 @@ var PreludeBuiltin = []struct{ Local, Global string }{
 	{"tsort", "table.sort"}, {"gsub", "string.gsub"}, {"select", "select"}, {"unpack", "unpack"},
 	{"tostring", "tostring"}, {"type", "type"}, {"rawequal", "rawequal"}, {"ipairs", "ipairs"},
 	{"rawget", "rawget"}, {"rawset", "rawset"}, {"strformat", "string.format"},
+	{"dgetup", "debug.getupvalue"}, {"dsetup", "debug.setupvalue"},
 }
